@@ -189,15 +189,17 @@ def _run_unit(args):
     return acc.pack()
 
 
-def pool_map(fn, items, chunksize=1):
-    """Ordered-independent parallel map over forked workers (library imported before the fork)."""
+def pool_map(fn, items, chunksize=1, fresh=False):
+    """Ordered-independent parallel map over forked workers (library imported before the fork).
+    fresh=True: every item runs in a newly forked child of the pristine parent (module-level state of the library,
+    caches and lazily built tables start from the import state for every unit)."""
     items = list(items)
-    if NPROC <= 1 or len(items) <= 1:
+    if (NPROC <= 1 or len(items) <= 1) and not fresh:
         for it in items:
             yield fn(it)
         return
     ctx = mp.get_context("fork")
-    with ctx.Pool(min(NPROC, len(items))) as pool:
+    with ctx.Pool(max(1, min(NPROC, len(items))), maxtasksperchild=1 if fresh else None) as pool:
         for r in pool.imap_unordered(fn, items, chunksize):
             yield r
 
@@ -209,7 +211,7 @@ def sweep(mod, ctx) -> Total:
     tot = Total()
     tot.extra["units"] = len(units)
     # largest units first would balance better, but simplest-first order is kept in `order`
-    for p in pool_map(_run_unit, list(enumerate(units))):
+    for p in pool_map(_run_unit, list(enumerate(units)), fresh=bool(getattr(mod, "FRESH_WORKERS", False))):
         tot.add(p)
     tot.states = tot.n
     return tot
@@ -396,6 +398,21 @@ def load_prop(pid):
 
 def reproduce(mod, v: Viol, ctx) -> bool:
     """A reported violation must re-occur twice from its recorded description, from scratch."""
+    if getattr(mod, "FRESH_WORKERS", False):
+        # behaviour may depend on module-level state: replay in brand-new interpreter processes
+        import tempfile
+        pid = mod.__name__.rsplit(".", 1)[-1].upper()
+        with tempfile.NamedTemporaryFile("w", suffix=".json", delete=False) as f:
+            json.dump({"property": pid, "tier": ctx.get("tier", "quick"), "seed": ctx.get("seed", 0), "case": v.case}, f, default=str)
+        try:
+            for _ in range(2):
+                r = subprocess.run([os.path.join(VERIF, "check"), pid, "--replay", f.name], capture_output=True, text=True,
+                                   env=dict(os.environ))
+                if r.returncode != 1 or f" {v.sig}:" not in r.stdout:
+                    return False
+            return True
+        finally:
+            os.unlink(f.name)
     for _ in range(2):
         got = mod.replay(v.case, ctx)
         if v.sig not in [g[0] for g in got]:
